@@ -413,7 +413,11 @@ func checkGuards(r *Reporter, p *Prog, rule string, rows []GuardRow) {
 						}
 						a.n++
 						if ro := rootObj(info, recvX); ro != nil && fresh[ro] {
-							return
+							// not yet shared - unless the mutex asked for belongs to shared state the fresh
+							// object merely points to (`v := &visitor{m: m}`: v.m.mutex is m.mutex)
+							if bp, okb := pathOf(info, recvX); !okb || strings.HasPrefix(canonPath(bp+embChain+e.chain), fmt.Sprintf("%s@%d", ro.Name(), ro.Pos())) {
+								return
+							}
 						}
 						base, okp := pathOf(info, recvX)
 						if !okp {
@@ -461,7 +465,9 @@ func checkGuards(r *Reporter, p *Prog, rule string, rows []GuardRow) {
 						}
 						a.n++
 						if ro := rootObj(info, recvX); ro != nil && fresh[ro] {
-							return
+							if bp, okb := pathOf(info, recvX); !okb || strings.HasPrefix(canonPath(bp+embChain+"."+row.Mutex), fmt.Sprintf("%s@%d", ro.Name(), ro.Pos())) {
+								return
+							}
 						}
 						exKey2 := fd.Name.Name
 						if recvT != "" {
@@ -508,7 +514,9 @@ func checkGuards(r *Reporter, p *Prog, rule string, rows []GuardRow) {
 					seen[x] = true
 					touched[gf.row.Type+"."+gf.field]++
 					if ro := rootObj(info, x.X); ro != nil && fresh[ro] {
-						return
+						if bp, okb := pathOf(info, x.X); !okb || strings.HasPrefix(canonPath(bp+embeddedChain(sel, hops)+"."+gf.row.Mutex), fmt.Sprintf("%s@%d", ro.Name(), ro.Pos())) {
+							return
+						}
 					}
 					muts := map[string]bool{}
 					for _, m := range gf.row.Mutators[gf.field] {
